@@ -19,6 +19,9 @@ func Bool(name string) bool
 func Str(name string, n int) string
 func Assume(c bool)
 func Assert(c bool, label string)
+
+// Lemma is an Assert whose condition, once proved on the path, is added to the path condition.
+func Lemma(c bool, label string)
 func AssertExcept(c bool, label string, finding string, pred bool)
 func Cover(label string)
 func Observe(name string, v interface{})
